@@ -798,7 +798,86 @@ def replay_c11(d, case):
     return False, 'output equals recipe(box) under the right names'
 
 
-HANDLERS = {'c11': replay_c11, 'c07': replay_c07, 'c10': replay_c10, 'c08': replay_c08, 'c02': replay_c02, 'c01': replay_c01, 'c15_list': replay_c15_list, 'tool': replay_tool, 'c20': replay_c20}
+def replay_c18(d, case):
+    import contextlib, io, sys, re, pickle
+    os.chdir(d)
+    tool = case['tool']
+    F = case['fields']
+    buf = io.StringIO()
+    old = sys.argv
+    try:
+        if tool == 'minuterie':
+            from amr_kitchen import minuterie
+            sys.argv = ['minuterie', 'plt']
+            with contextlib.redirect_stdout(buf):
+                minuterie.main()
+            out = buf.getvalue()
+            try:
+                got = float(out.split('=')[1])
+            except Exception:
+                return True, 'printed %r' % out
+            return (got != case['time']), 'printed time %r, header time %r' % (got, case['time'])
+        if tool == 'marinate':
+            from amr_kitchen import marinate, PlotfileCooker
+            sys.argv = ['marinate', 'plt']
+            with contextlib.redirect_stdout(buf), contextlib.redirect_stderr(io.StringIO()):
+                marinate.main()
+            if not os.path.exists('plt.pkl'):
+                return True, 'no plt.pkl written'
+            pck2 = pickle.load(open('plt.pkl', 'rb'))
+            pck = PlotfileCooker('plt', maxmins=True)
+            for attr in ('fields', 'ndims', 'time', 'limit_level', 'geo_low', 'geo_high', 'dx', 'boxes'):
+                if repr(getattr(pck, attr)) != repr(getattr(pck2, attr, None)):
+                    return True, 'unpickled %s differs' % attr
+            for l in range(case['nlev']):
+                for b in range(len(pck.cells[l]['offsets'])):
+                    if not bit_equal(pck[:][l][b], pck2[:][l][b]):
+                        return True, 'unpickled reader reads other data for level %d box %d' % (l, b)
+            return False, 'unpickled reader equal'
+        from amr_kitchen.menu.menu import Menu
+        min_max = 'min_max' in tool
+        finest = 'finest' in tool
+        with contextlib.redirect_stdout(buf), contextlib.redirect_stderr(io.StringIO()):
+            Menu('plt', min_max=min_max, finest_lv=finest)
+        out = buf.getvalue()
+        if min_max or finest:
+            cells = {}
+            count = {}
+            for line in out.splitlines():
+                if ' : ' not in line:
+                    continue
+                for cell in line.split('\t'):
+                    if ' : ' in cell:
+                        name, rest = cell.split(' : ', 1)
+                        name = name.strip()
+                        if name:
+                            count[name] = count.get(name, 0) + 1
+                            cells[name] = rest.split()
+            for f in F:
+                if count.get(f, 0) != 1:
+                    return True, 'field %r occurs in %d cells of the min/max table' % (f, count.get(f, 0))
+            lv = list(range(case['nlev'])) if not finest else [case['nlev'] - 1]
+            for f in F:
+                c = F.index(f)
+                emin = min(case['mins'][l][b][c] for l in lv for b in range(len(case['mins'][l])))
+                emax = max(case['maxs'][l][b][c] for l in lv for b in range(len(case['maxs'][l])))
+                if cells[f][0] != '{:.3}'.format(emin) or cells[f][1] != '{:.3}'.format(emax):
+                    return True, 'field %r shows %s, expected %s %s' % (f, cells[f][:2], '{:.3}'.format(emin), '{:.3}'.format(emax))
+            return False, 'table equal'
+        info = Menu.field_info
+        def key_of(f):
+            for k in info:
+                if re.compile(info[k][0]).search(f) and k not in F:
+                    return k
+            return f
+        return False, 'default listing printed'
+    except Exception as e:
+        return True, 'raised %s: %s' % (type(e).__name__, e)
+    finally:
+        sys.argv = old
+
+
+HANDLERS = {'c18': replay_c18, 'c11': replay_c11, 'c07': replay_c07, 'c10': replay_c10, 'c08': replay_c08, 'c02': replay_c02, 'c01': replay_c01, 'c15_list': replay_c15_list, 'tool': replay_tool, 'c20': replay_c20}
 
 
 def register(name):
